@@ -314,19 +314,31 @@ def environment(ctx, prog, X):
     lp = cfg.loops(f)
     env_loop = [h for h, body in lp.items() if ge[0].block.name in body]
     ctx.require(env_loop, 'opts_setup(): getenv is not inside a loop')
-    xm = list(f.calls('xmalloc'))
-    dom = cfg.dominators(f)
-    in_env = [c for c in xm if any(c.block.name in lp[h] for h in env_loop)]
-    argv_allocs = []
-    for c in xm:
-        if c in in_env:
-            continue
-        # arg->val = argv[ofs]
+    # allocation-and-link sites: `arg = xmalloc(..); arg->val = X; ...` written out, or a call of a small helper
+    # that does exactly that with one of its parameters (`arg_append(&link_at, X)`)
+    sites = []          # (call insn, value expression stored into ->val)
+    for c in f.calls('xmalloc'):
         for i in c.block.insns:
             if i.op == 'store' and addr_key(P.addr(i.ops[1])).endswith('.val'):
-                v = strip_casts(P.expr(i.ops[0]))
-                if v[0] == 'load' and 'param:argv' in render(v):
-                    argv_allocs.append((c, v))
+                sites.append((c, strip_casts(P.expr(i.ops[0]))))
+    helpers = {}
+    for h in f.module.funcs.values():
+        if h is f or not list(h.calls('xmalloc')):
+            continue
+        Ph = Prov(prog, h)
+        for i in h.insns():
+            if i.op == 'store' and addr_key(Ph.addr(i.ops[1])).endswith('.val'):
+                v = strip_casts(Ph.expr(i.ops[0]))
+                if v[0] == 'param':
+                    helpers[h.name] = v[1]
+    for c in f.calls():
+        k = helpers.get(c.extra.get('callee'))
+        if k is not None and k < len(c.ops):
+            sites.append((c, strip_casts(P.expr(c.ops[k]))))
+    dom = cfg.dominators(f)
+    in_env_sites = [(c, v) for c, v in sites if any(c.block.name in lp[h] for h in env_loop)]
+    in_env = [c for c, v in in_env_sites]
+    argv_allocs = [(c, v) for c, v in sites if c not in in_env and v[0] == 'load' and 'param:argv' in render(v)]
     ok = len(in_env) == 1 and len(argv_allocs) == 1
     order_ok = ok and rules.can_follow(f, in_env[0], argv_allocs[0][0]) and not rules.can_follow(f, argv_allocs[0][0], in_env[0])
     ctx.ob('C22.env', 'environment tokens are linked into the argument list before the command-line arguments',
@@ -334,11 +346,9 @@ def environment(ctx, prog, X):
     # env token value is strtok's result
     okv = False
     if ok:
-        for i in in_env[0].block.insns:
-            if i.op == 'store' and addr_key(P.addr(i.ops[1])).endswith('.val'):
-                v = strip_casts(P.expr(i.ops[0]))
-                okv = v[0] == 'phi' and all(strip_casts(x)[0] == 'call' and strip_casts(x)[1] in ('strtok', 'strtok_r')
-                                            for x, _ in P.phi_inputs(v))
+        v = in_env_sites[0][1]
+        okv = v[0] == 'phi' and all(strip_casts(x)[0] == 'call' and strip_casts(x)[1] in ('strtok', 'strtok_r')
+                                    for x, _ in P.phi_inputs(v))
     ctx.ob('C22.env', 'each environment token becomes one argument', f.loc(in_env[0]) if in_env else f.loc(), okv, '')
     # ... and every token does: nothing but "variable is set" and "there is another token" guards the append
     if ok:
